@@ -84,9 +84,9 @@ def finish(pid, tier, t0, coverage, violations, assumptions, confirm=None, exhau
     return status
 
 
-def cc(out, srcs, flags=(), cwd=None):
+def cc(out, srcs, flags=(), cwd=None, deps=()):
     """compile helper with mtime cache"""
-    newest = max(os.path.getmtime(s) for s in srcs if os.path.exists(s))
+    newest = max(os.path.getmtime(s) for s in list(srcs) + list(deps) if os.path.exists(s))
     if os.path.exists(out) and os.path.getmtime(out) > newest:
         return out
     os.makedirs(os.path.dirname(out), exist_ok=True)
